@@ -137,3 +137,20 @@ def install():
         dq.threading = tp
         _installed = (cp, tp)
     return _installed
+
+
+_installed_cond_only = None
+
+
+def install_counting_condition_only():
+    """Replace only delayed_queue.threading (real clock kept): lets a rig see whether a consumer is parked in the queue's condition."""
+    global _installed_cond_only
+    if _installed is not None:
+        return _installed[1]
+    if _installed_cond_only is None:
+        from watchdog.utils import delayed_queue as dq
+
+        tp = ThreadingProxy()
+        dq.threading = tp
+        _installed_cond_only = tp
+    return _installed_cond_only
